@@ -57,6 +57,31 @@ Qed.
 Lemma Zdvd_of_dvdn (d n : nat) : d %| n -> (Z.of_nat d | Z.of_nat n)%Z.
 Proof. move=> /dvdnP [k ->]. exists (Z.of_nat k). by rewrite Nat2Z.inj_mul. Qed.
 
+Lemma dvdn_of_Zdvd (d n : nat) : (Z.of_nat d | Z.of_nat n)%Z -> d %| n.
+Proof.
+  move=> [c hc]. apply/dvdnP. exists (Z.to_nat c).
+  case: (Z_lt_le_dec c 0) => hc0.
+  - have : (Z.of_nat n <= 0)%Z by rewrite hc; nia. move=> hn.
+    have n0 : n = 0%N by lia. have : (c * Z.of_nat d = 0)%Z by lia.
+    move=> /Z.mul_eq_0 [h|h]; first lia. have -> : d = 0%N by lia. by rewrite n0 muln0.
+  - apply: Nat2Z.inj. by rewrite hc -[in LHS](Z2Nat.id c) // -Nat2Z.inj_mul.
+Qed.
+
+Lemma prime_Zprime (n : nat) : prime n -> Znumtheory.prime (Z.of_nat n).
+Proof.
+  move=> pn. have n1 : (1 < n)%N by apply: prime_gt1.
+  apply (proj1 (prime_alt _)). split; first by move/ltP: n1; lia.
+  move=> d [d1 dn] hd.
+  have hd' : (Z.of_nat (Z.to_nat d) | Z.of_nat n)%Z by rewrite Z2Nat.id; [exact: hd | lia].
+  move/dvdn_of_Zdvd: hd'. move/primeP: pn => [_ h] /h /orP [/eqP e|/eqP e]; lia.
+Qed.
+
+(* concrete primes for the non-vacuity example of props/C16.v *)
+Lemma Zprime_1031 : Znumtheory.prime 1031%Z.
+Proof. by apply: (prime_Zprime (n := 1031)). Qed.
+Lemma Zprime_1049 : Znumtheory.prime 1049%Z.
+Proof. by apply: (prime_Zprime (n := 1049)). Qed.
+
 (* ---- Z statements ------------------------------------------------------------------------ *)
 
 Local Open Scope Z_scope.
